@@ -194,6 +194,38 @@ func main() {
 		p := withCert(cv.cert)
 		structural = append(structural, mk(cv.name, p, sign(cv.key, p)))
 	}
+	// Certificates for the sibling key issued by the genuine root with another signature algorithm,
+	// and the endorsement signed by that key with the very same algorithm: chain and key are fine,
+	// only the endorsement signature scheme is not RSA-PSS/SHA-256.
+	for _, alt := range []struct {
+		name string
+		alg  x509.SignatureAlgorithm
+		sign func(msg []byte) []byte
+	}{
+		{"issuer-alg-pkcs1v15-sha256", x509.SHA256WithRSA, func(m []byte) []byte {
+			d := sha256.Sum256(m)
+			s, _ := rsa.SignPKCS1v15(rand.Reader, A.SiblingKey, crypto.SHA256, d[:])
+			return s
+		}},
+		{"issuer-alg-pkcs1v15-sha512", x509.SHA512WithRSA, func(m []byte) []byte {
+			d := sha512.Sum512(m)
+			s, _ := rsa.SignPKCS1v15(rand.Reader, A.SiblingKey, crypto.SHA512, d[:])
+			return s
+		}},
+		{"issuer-alg-pss-sha384", x509.SHA384WithRSAPSS, func(m []byte) []byte {
+			return pss(A.SiblingKey, crypto.SHA384, rsa.PSSSaltLengthEqualsHash, m)
+		}},
+	} {
+		t := &x509.Certificate{SerialNumber: big.NewInt(9), Subject: A.SiblingCert.Subject, NotBefore: fx.T0, NotAfter: A.SignCert.NotAfter,
+			KeyUsage: x509.KeyUsageDigitalSignature, SignatureAlgorithm: alt.alg}
+		der, err := x509.CreateCertificate(rand.Reader, t, A.RootCert, &A.SiblingKey.PublicKey, A.RootKey)
+		if err != nil {
+			mc.Fatal("alt cert: %v", err)
+		}
+		p := withCert(der)
+		structural = append(structural, mk("cert-"+alt.name+"+sig-same-alg", p, alt.sign(p)))
+		structural = append(structural, mk("cert-"+alt.name+"+sig-pss-sha256", p, sign(A.SiblingKey, p)))
+	}
 	// A re-signed payload with a changed measurement but the original signature, and re-signed properly.
 	{
 		g := proto.Clone(signed).(*epb.VMGoldenMeasurement)
